@@ -8,6 +8,7 @@ import (
 	"io"
 	"os"
 	"sort"
+	"strings"
 	"sync"
 	"testing"
 	"time"
@@ -583,7 +584,11 @@ func run(c Case, o *vt.Obs) *vt.Failure {
 				if r.Method == "TablesCreate" || r.Method == "TablesDelete" {
 					continue
 				}
-				return vt.Failf(prop+"/valid-request-refused", i, "valid %s sent to the %s: %v", r.Method, r.Target, err)
+				if d := os.Getenv("VERIF_DUMP_LOGS"); d != "" {
+					_ = os.WriteFile(d+"/follower.log", []byte(follower.LogTail(5000000)), 0o644)
+					_ = os.WriteFile(d+"/leader.log", []byte(leader.LogTail(5000000)), 0o644)
+				}
+				return vt.Failf(prop+"/valid-request-refused", i, "valid %s sent to the %s: %v\n--- follower log tail:\n%s\n--- leader log tail:\n%s", r.Method, r.Target, err, grepLog(follower.LogTail(400000)), grepLog(leader.LogTail(200000)))
 			}
 			if f := applyValid(i, r, resp, models, xtables); f != nil {
 				return f
@@ -699,3 +704,19 @@ func applyValid(step int, r Req, resp any, models map[string]*model.Map, xtables
 func TestC16(t *testing.T)        { vt.Check(t, prop, genCase, run) }
 func TestC16Replay(t *testing.T)  { vt.Replay(t, prop, run) }
 func TestC16Regress(t *testing.T) { vt.Regress(t, prop, "testdata", run) }
+
+func grepLog(s string) string {
+	out := ""
+	for _, ln := range strings.Split(s, "\n") {
+		if strings.Contains(ln, "replication") || strings.Contains(ln, "rror") || strings.Contains(ln, "anic") {
+			if len(ln) > 400 {
+				ln = ln[:400]
+			}
+			out += ln + "\n"
+		}
+	}
+	if len(out) > 6000 {
+		out = out[len(out)-6000:]
+	}
+	return out
+}
